@@ -794,7 +794,7 @@ class RealBackend(object):
             # bounded cost per probe point: a seeded sample (always keeping the scheduler)
             keep = objs[-(len(self.svs) + 1 + len(self.live_ctx)):]
             rest = objs[:len(objs) - len(keep)]
-            objs = self.probe_rng.sample(rest, 70) + keep
+            objs = self.probe_rng.sample(rest, min(70, len(rest))) + keep
         self.probes["objects_printed"] += len(objs)
         self.probes["probe_points"] += 1
         for name, o in objs:
